@@ -274,9 +274,11 @@ def gen_case(rng):
 
 
 def plan(tier, seed):
+    sched = [{'kind': 'sched', 'lo': lo, 'hi': lo + 400, 'step': 10 if tier == 'quick' else 3, 'ks': [4, 5, 6] if tier == 'quick' else [2, 3, 4, 5, 6, 7, 9]}
+             for lo in (40, 440, 840, 1240)]
     if tier == 'quick':
-        return [{'kind': 'corpus'}] + [{'kind': 'random', 'seed': seed * 1000 + i, 'n': 40} for i in range(15)]
-    return [{'kind': 'corpus'}] + [{'kind': 'random', 'seed': seed * 100000 + i, 'n': 700} for i in range(32)]
+        return [{'kind': 'corpus'}] + [{'kind': 'random', 'seed': seed * 1000 + i, 'n': 40} for i in range(15)] + sched
+    return [{'kind': 'corpus'}] + [{'kind': 'random', 'seed': seed * 100000 + i, 'n': 700} for i in range(32)] + sched
 
 
 # known findings: twin = the same program with every exit code replaced by None ----------------------------
@@ -337,7 +339,62 @@ def evaluate_case(b, case):
         b.fail(case, clause, detail, known=known, dedup='')
 
 
+def run_sched_batch(spec):
+    """stop() from a second thread under the controlled scheduler of C03 (vlib/sched.py): the stopper thread is
+    pre-empted after k yield points of stop() while the loop thread is busy.  stop() clears the running flag before it
+    queues `stopped`; if the loop runs its last ticks in between, run() returns with `stopped` undispatched."""
+    from checks import c03
+    from vlib import sched
+    sched.install_and_import()
+    import os
+
+    import circuits
+    sched.start_monitoring(os.path.join(os.path.dirname(circuits.__file__), 'core') + os.sep)
+    b = Batch(PROPERTY)
+    scn = {'mech': 'fallback', 'firers': 1, 'events': 1, 'task': True}
+    base = c03.run_schedule(scn, record=True)
+    if not base['finished'] or base['record'] is None:
+        b.inconclusive_because('scheduler baseline did not finish')
+        return b.result()
+    first_tick = next((i for i, p in enumerate(base['record']['L']) if p[2] == 'tick'), 1)
+
+    def one(a1, k):
+        plan = [('L', first_tick + 5), ('F0', c03.INF), ('L', a1), ('S', k), ('L', c03.INF)]
+        res = c03.run_schedule(scn, plan=plan)
+        preempted = any(sw[0] == 'S' and sw[1] == 'L' and ':' in sw[2] for sw in res['switches'])
+        return plan, res, preempted
+    shown = 0
+    for a1 in range(spec['lo'], spec['hi'], spec['step']):
+        for k in spec['ks']:
+            plan, res, preempted = one(a1, k)
+            case = {'sched': scn, 'plan': [list(x) for x in plan]}
+            if not res['finished'] or res['violation'] or res['deadlock']:
+                b.inconclusive_because('scheduled foreign stop did not finish: %r' % (res['violation'] or res['deadlock'],))
+                continue
+            b.case(case, nontrivial=preempted, distinct_key=[list(x[:3]) for x in res['switches']])
+            b.reached('stop_from_second_thread')
+            b.reached('sched_foreign_stop_schedules')
+            if preempted:
+                b.reached('sched_stopper_preempted_inside_stop')
+            if res['stop_dispatched_when_run_returned']:
+                b.ok('STOPPED_ONCE')
+                b.ok('DRAINED')
+            else:
+                shown += 1
+                def twin(a1=a1):
+                    _, r2, _ = one(a1, c03.INF)   # same schedule, stopper not pre-empted inside stop()
+                    return r2['finished'] and bool(r2['stop_dispatched_when_run_returned'])
+                b.fail(case, 'STOPPED_ONCE', {'note': 'run() returned before `stopped` (queued by the foreign stop()) was dispatched',
+                                              'switches': [list(x) for x in res['switches'][-6:]]},
+                       known=[('runstop.foreign-stop-races-loop-exit', twin)] if preempted else [], dedup='sched')
+        if shown >= 3:
+            break
+    return b.result()
+
+
 def run_batch(spec):
+    if spec.get('kind') == 'sched':
+        return run_sched_batch(spec)
     import circuits  # noqa: F401
     b = Batch(PROPERTY)
     if spec['kind'] == 'corpus':
